@@ -106,6 +106,8 @@ type Delivered struct {
 
 // Result is what one executed operation looked like from outside (for the monitors).
 type Result struct {
+	// Body of a control-plane response (K = "rpc"), as the API layer renders it
+	Body string
 	// an operation that reported success although (part of) its effect is missing from the tables
 	Lost                      string
 	Op                        Op
@@ -306,6 +308,7 @@ func (w *World) Exec(op Op) *Result {
 		// the API layer writes its own protocol lines (rpc + dump), replayed by the same model state
 		rr := w.Api().ExecRpc(*op.Rpc)
 		res.Resp = "ok"
+		res.Body = rr.Body
 		if rr.Status != "OK" {
 			res.Resp = "E:" + rr.Status
 		}
